@@ -62,6 +62,22 @@ def fl(v):
     return [float(t) for t in np.ravel(np.asarray(v, dtype=float))]
 
 
+def ee_view_curves(ee):
+    """run the real EncircledEnergy.view() with matplotlib replaced by a recorder; returns ([(r, ee) per field], axis_lim)"""
+    import matplotlib.pyplot as plt
+    ax = FakeAx()
+    old = plt.subplots, plt.show
+    plt.subplots = lambda *a, **k: (FakeAx(), ax)
+    plt.show = lambda *a, **k: None
+    try:
+        ee.view()
+    finally:
+        plt.subplots, plt.show = old
+    curves = [(np.asarray(a[0], dtype=float), np.asarray(a[1], dtype=float)) for a, k in ax.lines]
+    axis_lim = float(curves[0][0][-1]) / 1.2 if curves and len(curves[0][0]) else float('nan')
+    return curves, axis_lim
+
+
 class FakeAx:
     """records ax.plot calls (used to read the curves that only exist inside view())"""
     def __init__(self):
@@ -178,16 +194,21 @@ def check_rms_vs_field(o, num_fields, wavelengths, num_rings, distribution):
     cands = [ri] if ri is not None else list(range(len(wl)))
     for i, f in enumerate(fields):
         spots = [spot_of(o, f, w, num_rings, distribution) for w in wl]
+        fins = [np.isfinite(sp[0]) & np.isfinite(sp[1]) for sp in spots]
+        if not all(np.any(fn) for fn in fins):
+            continue                                       # a wavelength without any ray at the image: nothing to compare
         good = False
         for k in cands:
-            cx, cy = np.mean(spots[k][0]), np.mean(spots[k][1])
-            exp = [np.sqrt(np.mean((s[0] - cx) ** 2 + (s[1] - cy) ** 2)) for s in spots]
+            cx, cy = np.mean(spots[k][0][fins[k]]), np.mean(spots[k][1][fins[k]])
+            exp = [np.sqrt(np.mean((sp[0][fn] - cx) ** 2 + (sp[1][fn] - cy) ** 2)) for sp, fn in zip(spots, fins)]
             if close(a._spot_size[i], exp):
                 good = True
                 break
         if not good:
-            out.append(v('RmsSpotSizeVsField', 'reference-wrong' if ri is None or wl != own_wavelengths(o) else 'rms-radius',
-                         f'field sample {i} (Hy={f[1]}): reported {fl(a._spot_size[i])}', primary_listed=ri is not None, **ctx))
+            nonfin = int(sum(np.sum(~fn) for fn in fins))
+            kind = 'nan-poisoned' if nonfin else ('reference-wrong' if ri is None or wl != own_wavelengths(o) else 'rms-radius')
+            out.append(v('RmsSpotSizeVsField', kind, f'field sample {i} (Hy={f[1]}): reported {fl(a._spot_size[i])}',
+                         primary_listed=ri is not None, nonfinite_rays=nonfin, **ctx))
         if not close(a._field[i], f):
             out.append(v('RmsSpotSizeVsField', 'field-samples', f'sample {i}', **ctx))
     return out
@@ -204,14 +225,7 @@ def check_encircled(o, fields, wavelength, num_rays, distribution, num_points):
     try:
         ee = EncircledEnergy(o, fields=fields, wavelength=wavelength, num_rays=num_rays, distribution=distribution,
                              num_points=num_points)
-        data = ee._center_spots(deepcopy(ee.data))
-        geo = ee.geometric_spot_radius()
-        axis_lim = np.max(geo)
-        curves = []
-        for k, fd in enumerate(data):
-            ax = FakeAx()
-            ee._plot_field(ax, fd, ee.fields[k], axis_lim, ee.num_points)
-            curves.append(ax.lines)
+        curves, axis_lim = ee_view_curves(ee)
     except Exception as e:   # noqa
         return [v('EncircledEnergy', 'raises', f'{type(e).__name__}: {e}', **ctx)], None
     out = []
@@ -224,10 +238,10 @@ def check_encircled(o, fields, wavelength, num_rays, distribution, num_points):
             if not (close(ee.data[k][0][0], x) and close(ee.data[k][0][1], y) and close(ee.data[k][0][2], en)):
                 out.append(v('EncircledEnergy', 'data', f'field {k} differs from the independent trace', **ctx))
                 continue
-        if len(curves[k]) != 1:
-            out.append(v('EncircledEnergy', 'curve-count', f'field {k}: {len(curves[k])} curves', **ctx))
-            continue
-        (r_step, e_step), _ = curves[k][0]
+        if len(curves) != len(fields):
+            out.append(v('EncircledEnergy', 'curve-count', f'{len(curves)} curves for {len(fields)} fields', **ctx))
+            break
+        r_step, e_step = curves[k]
         r_step, e_step = np.asarray(r_step, dtype=float), np.asarray(e_step, dtype=float)
         fin = np.isfinite(x) & np.isfinite(y)
         cx, cy = np.mean(x[fin]), np.mean(y[fin])
@@ -268,20 +282,35 @@ def check_rayfan(o, fields, wavelengths, num_points):
         out.append(v('RayFan', 'samples', f'num_points {a.num_points}', **ctx))
         return out
     wp = float(o.primary_wavelength)
+    refs = [wp] if ri is not None else wl            # the primary wavelength when listed, else any listed wavelength
     for f in fields:
-        chief = tg(o, f[0], f[1], 0.0, 0.0, wp)          # the chief ray at the primary wavelength is the origin of the fan
-        x0, y0 = chief['x'][-1, 0], chief['y'][-1, 0]
+        vx, vy = o.fields.get_vig_factor(f[0], f[1])
+        traces = {}
         for w in wavelengths:
-            d = a.data[f'{f}'][f'{w}']
-            vx, vy = o.fields.get_vig_factor(f[0], f[1])
-            rx = tg(o, f[0], f[1], P * (1 - vx), 0.0, w)
-            ry = tg(o, f[0], f[1], 0.0, P * (1 - vy), w)
-            if not close(d['x'], rx['x'][-1] - x0, atol=1e-10):
-                out.append(v('RayFan', 'fan-x', f'field {f} wavelength {w}: x fan is not x(Px) - x_chief(primary)', **ctx))
-            if not close(d['y'], ry['y'][-1] - y0, atol=1e-10):
-                out.append(v('RayFan', 'fan-y', f'field {f} wavelength {w}: y fan is not y(Py) - y_chief(primary)', **ctx))
-            if not (close(d['intensity_x'], rx['intensity'][-1]) and close(d['intensity_y'], ry['intensity'][-1])):
-                out.append(v('RayFan', 'intensity', f'field {f} wavelength {w}', **ctx))
+            traces[float(w)] = (tg(o, f[0], f[1], P * (1 - vx), 0.0, w), tg(o, f[0], f[1], 0.0, P * (1 - vy), w))
+        good = False
+        why = ''
+        for wr in refs:
+            chief = tg(o, f[0], f[1], 0.0, 0.0, wr)      # the chief ray at the reference wavelength is the origin of the fan
+            x0, y0 = chief['x'][-1, 0], chief['y'][-1, 0]
+            bad = []
+            for w in wavelengths:
+                d = a.data[f'{f}'][f'{w}']
+                rx, ry = traces[float(w)]
+                if not close(d['x'], rx['x'][-1] - x0, atol=1e-10):
+                    bad.append(('fan-x', w))
+                if not close(d['y'], ry['y'][-1] - y0, atol=1e-10):
+                    bad.append(('fan-y', w))
+                if not (close(d['intensity_x'], rx['intensity'][-1]) and close(d['intensity_y'], ry['intensity'][-1])):
+                    bad.append(('intensity', w))
+            if not bad:
+                good = True
+                break
+            why = bad
+        if not good:
+            for kind, w in why[:3]:
+                out.append(v('RayFan', kind, f'field {f} wavelength {w}: fan is not the image coordinate minus the chief-ray '
+                             f'coordinate at the reference wavelength', **ctx))
     return out
 
 
@@ -313,10 +342,11 @@ def check_pupil_aberration(o, fields, wavelengths, num_points):
             ex[rx['intensity'][stop] == 0] = np.nan
             ey = (par - ry['y'][stop]) / d * 100
             ey[ry['intensity'][stop] == 0] = np.nan
+            all_nan = bool(np.all(np.isnan(e['x'])) and np.all(np.isnan(e['y'])))
             if not close(e['x'], ex, atol=1e-9):
-                out.append(v('PupilAberration', 'x', f'field {f} wavelength {w}', **ctx))
+                out.append(v('PupilAberration', 'x', f'field {f} wavelength {w}' + (': all NaN' if all_nan else ''), all_nan=all_nan, **ctx))
             if not close(e['y'], ey, atol=1e-9):
-                out.append(v('PupilAberration', 'y', f'field {f} wavelength {w}', **ctx))
+                out.append(v('PupilAberration', 'y', f'field {f} wavelength {w}' + (': all NaN' if all_nan else ''), all_nan=all_nan, **ctx))
     return out
 
 
@@ -649,7 +679,7 @@ def explicit_lists(o, rng):
     others = [w for w in (0.47, 0.51, 0.53, 0.6, 0.64, 0.68) if w not in own]
     a, b = rng.sample(others, 2)
     return {'with_primary_first': [wp, a], 'with_primary_last': [a, b, wp], 'without_primary_short': [a],
-            'without_primary_long': [a, b] + ([rng.choice(others)] if len(own) > 2 else [])}
+            'without_primary_long': [a, b] + ([rng.choice([w for w in others if w not in (a, b)])] if len(own) > 2 else [])}
 
 
 def oracle_lens(o, spec, rng, level=1):
